@@ -5,8 +5,15 @@
    calibration model of Model/Params.v.  Only definitions here.
 
    state = Heap (list of parameter records, addresses = positions).  A model object is identified with the address of the
-   Parameters object it was built on (`model_cls(spot=model.spot, r=model.r, d=model.d, parameters=q)` keeps a REFERENCE to q:
-   its price reads the heap at q at the time of pricing).  An operation that raises in Python returns None. *)
+   Parameters object it was built on (`model_cls(spot=model.spot, r=model.r, d=model.d, parameters=q)` keeps a REFERENCE to q).
+   CORRECTED (audit 5b, B14): the Python model object does NOT read q at the time of pricing -- HEMModel.__init__ caches sigma and the
+   drift in its Levy triplet and ExponentialOfLevyModel.__init__ caches omega, so a model priced after `q.sigma = 0.3; q.initialisation()`
+   still gives the old price (COS call(100, 1): 5.7026 against 13.6366 for a fresh model).  hop_price st m = price (load st m) is therefore
+   the price of a model CONSTRUCTED on the record at m at that moment; it is used only that way: in utils.py every price follows a fresh
+   `model_cls(...)` on the object just re-initialised (gen_calibration_fun: op_model then op_price on the same address, nothing in between).
+   A program pricing an OLD model object after a later assignment would not be described by hop_price.
+   An operation that raises in Python returns None: ValueError and ZeroDivisionError are ONE outcome here (utils.py re-wraps ValueError
+   only, so a ZeroDivisionError of the re-initialisation leaves calibrate_model_parameter un-wrapped -- not distinguished by this model). *)
 From Coq Require Import ZArith QArith Qabs Bool List.
 From RV Require Import Base.QB Gen.GenC20Params Model.Params.
 Import ListNotations.
